@@ -10,6 +10,11 @@ fresh interpreter -- walks the Quantity subclasses and writes
                              (hints; every claim in them is re-checked in Coq)
   .scratch/units/dump.json   the same information for the harness
 
+With `--out DIR` the three files are written to DIR instead (Gen_Tables.v,
+Gen_Compound.v, dump.json): every check run keeps the tables of the tree it runs
+against in a directory of its own (keyed by the content of units.py), so runs
+against different trees never share a generated file.
+
 Fail-closed: a value that does not have the expected Python type is written as
 an explicit Bad_* constructor (which makes the well-formedness theorems false),
 never dropped.  Files are rewritten only when their content changed.
@@ -333,6 +338,10 @@ def write_if_changed(path: Path, text: str) -> bool:
 
 
 def main() -> int:
+    global OUT_TABLES, OUT_COMPOUND, OUT_JSON
+    if len(sys.argv) >= 3 and sys.argv[1] == "--out":
+        out = Path(sys.argv[2])
+        OUT_TABLES, OUT_COMPOUND, OUT_JSON = out / "Gen_Tables.v", out / "Gen_Compound.v", out / "dump.json"
     mod = load_module()
     tables, js, classes = dump(mod)
     comp = decompose(classes)
